@@ -1130,35 +1130,43 @@ class Interp:
     def loop_spec_for(self, s, fr):
         if fr.fn is None:
             return None
-        return self.loop_specs.get((fr.fn.qualname, s.lineno)) or self.loop_specs.get((fr.fn.qualname, getattr(s, '_ordinal', None)))
+        return self.loop_specs.get((fr.fn.qualname, getattr(s, '_ordinal', None)))
 
     def loop_with_spec(self, s, fr, spec, iterable=None):
-        """Hoare rule for a loop with invariant `spec.inv(cx, env, g)` and variant `spec.var(cx, env, g)`.
-        env is the frame's locals; g is a dict of ghost values captured at loop entry."""
+        """Hoare rule for a loop with invariant `spec.inv(it, env, g)` (dict label -> term) and variant
+        `spec.var(it, env, g)`.  env = the frame's locals; g = ghost values captured at loop entry.
+        For `for` loops g['i'] is the ghost iteration index (number of completed iterations) and
+        g['seq'] the iterable (anything with seq_len()/elem()); the variant is seq_len - i by construction."""
         run = self.run
-        name = f'{fr.fn.qualname}#loop@L{s.lineno}'
+        name = f'{fr.fn.qualname}#loop{getattr(s, "_ordinal", "")}'
         env = fr.locals
-        g = spec.ghost(self, env, iterable) if spec.ghost else {}
         is_for = isinstance(s, (ast.For, ast.AsyncFor))
+        g = {}
         if is_for:
-            g['__iter__'] = iterable
-            g['__i__'] = 0
+            if isinstance(iterable, (list, tuple)):
+                from .symseq import BufSeq
+                raise Unsupported('loop specification over a concrete list: unroll instead')
+            g['seq'] = iterable
+            g['i'] = 0
+        if spec.ghost:
+            g.update(spec.ghost(self, env, g))
         for label, claim in spec.inv(self, env, g).items():
             run.oblige(f'{name}.inv.entry:{label}', claim)
-        # havoc everything the body assigns
-        targets = assigned_names(s.body) | (assigned_names([ast.Assign(targets=[s.target], value=None)]) if is_for else set())
-        which = run.choose([('body', True), ('exit', True)], f'loop@L{s.lineno}')
+        targets = assigned_names(s.body)
+        if is_for:
+            targets |= assigned_names([ast.Assign(targets=[s.target], value=ast.Constant(value=None))])
+        which = run.choose([('body', True), ('exit', True)], f'loop{getattr(s, "_ordinal", "")}')
         spec.havoc(self, env, g, targets)
+        if is_for:
+            g['i'] = run.fresh_int('iter')
+            n = zint(iterable.seq_len())
+            run.assume(z3.And(g['i'] >= 0, g['i'] <= n))
         for label, claim in spec.inv(self, env, g).items():
             run.assume(claim)
-        if is_for:
-            guard = spec.for_guard(self, env, g)
-        else:
-            guard = None
         if which == 'body':
             if is_for:
-                run.assume(guard)
-                self.assign_target(s.target, spec.for_item(self, env, g), fr)
+                run.assume(g['i'] < n)
+                self.assign_target(s.target, iterable.elem(self, g['i']), fr)
             else:
                 if not self.branch(self.eval(s.test, fr), f'L{s.lineno}.while'):
                     raise PathEnd('guard false in body path')
@@ -1170,7 +1178,7 @@ class Interp:
             except BreakSig:
                 return            # continue after the loop with the state at the break
             if is_for:
-                g['__i__'] = g['__i__'] + 1
+                g['i'] = g['i'] + 1
             for label, claim in spec.inv(self, env, g).items():
                 run.oblige(f'{name}.inv.preserve:{label}', claim)
             if v0 is not None:
@@ -1179,10 +1187,11 @@ class Interp:
             raise PathEnd('loop body path complete')
         else:
             if is_for:
-                run.assume(Not(guard))
+                run.assume(g['i'] == n)
             else:
                 if self.branch(self.eval(s.test, fr), f'L{s.lineno}.while'):
                     raise PathEnd('guard true in exit path')
+            fr.locals['__loop_ghost__'] = g
             self.exec_block(s.orelse, fr)
 
     # ------------------------------------------------------------------ calls
@@ -1225,7 +1234,13 @@ class Interp:
 
     def function_from_real(self, fn):
         node = self.src.find(fn)
-        import sys
+        if not hasattr(node, '_ordinals_set'):
+            k = 0
+            for n in sorted([x for x in ast.walk(node) if isinstance(x, (ast.While, ast.For, ast.AsyncFor))],
+                            key=lambda x: (x.lineno, x.col_offset)):
+                k += 1
+                n._ordinal = k
+            node._ordinals_set = True
         g = fn.__globals__
         f = InterpFunction(node, None, g, fn.__qualname__, defining_class(fn), fn,
                            list(fn.__defaults__ or ()), dict(fn.__kwdefaults__ or {}))
